@@ -235,7 +235,8 @@ impl Run {
         }
         if !r.ok {
             out.emit(&json!({"act":"reset","sys":"cw3","run":run_no,"cfg":cfg,"ok":false,"panic":r.panic,"err":r.err,"now":w.now(),"out":[],"anom":[],
-                "obs":{"props":[],"voters":{"a1":-1,"a2":-1,"a3":-1},"gtotal":0,"bal":{"a1":0,"a2":0,"a3":0,"ms":0},"flaky":false}}));
+                "obs":{"props":[],"voters":{"a1":-1,"a2":-1,"a3":-1},"gtotal":0,"bal":{"a1":0,"a2":0,"a3":0,"ms":0},"flaky":false,
+                       "thrq":{"kind":"none","weight":0,"p":0,"q":0,"total":0},"lvoters":[],"voteq":[]}}));
             return None;
         }
         let ms = w.addr("ms");
@@ -416,7 +417,32 @@ impl Run {
             bal.insert(u.to_string(), json!(self.dep_balance(&w.addr(u))));
         }
         bal.insert("ms".into(), json!(self.dep_balance(&self.ms)));
-        json!({"props":props,"voters":Value::Object(voters),"gtotal":gtotal,"bal":Value::Object(bal),"flaky":self.flaky_on})
+        // further queries (beyond the listed properties): Threshold{}, ListVoters{}, Vote{} must agree with the rest
+        let thrq: Value = self.q::<ThresholdResponse>(&self.ms, &cw3_fixed_multisig::msg::QueryMsg::Threshold {}).map(|t| thr_resp_to_model(&t)).unwrap_or(json!({"kind":"error","weight":0,"p":0,"q":0,"total":0}));
+        let mut lvoters = vec![];
+        let mut cursor: Option<String> = None;
+        loop {
+            let r: Option<cw3::VoterListResponse> = self.q(&self.ms, &cw3_fixed_multisig::msg::QueryMsg::ListVoters { start_after: cursor.clone(), limit: Some(30) });
+            let Some(r) = r else { break };
+            if r.voters.is_empty() { break; }
+            cursor = Some(r.voters.last().unwrap().addr.clone());
+            for v in r.voters {
+                let nm = w.name_of(&v.addr);
+                if USERS.contains(&nm.as_str()) { lvoters.push(json!({"a": nm, "w": v.weight})); }
+            }
+        }
+        let mut voteq = vec![];
+        for p in props.iter() {
+            let id = p["id"].as_u64().unwrap();
+            for u in USERS {
+                let r: Option<cw3::VoteResponse> = self.q(&self.ms, &cw3_fixed_multisig::msg::QueryMsg::Vote { proposal_id: id, voter: w.addr(u).to_string() });
+                if let Some(Some(v)) = r.map(|x| x.vote) {
+                    voteq.push(json!({"id": id, "voter": u, "vote": vote_name(&v.vote), "w": v.weight}));
+                }
+            }
+        }
+        json!({"props":props,"voters":Value::Object(voters),"gtotal":gtotal,"bal":Value::Object(bal),"flaky":self.flaky_on,
+               "thrq":thrq,"lvoters":lvoters,"voteq":voteq})
     }
 
     fn build_msgs(&mut self, kind: &str) -> Vec<CosmosMsg> {
